@@ -118,6 +118,7 @@ type allocRec struct {
 }
 
 type Enc struct {
+	lastTyp      map[string]types.Type // static type of lastresult(callee)
 	nameFallback bool
 	atHit    map[int]bool // at-clauses of the contract that matched a site
 	families []*sliceFamily
@@ -621,7 +622,7 @@ func (e *Enc) obligeNamed(name, kind, detail string, pos token.Pos, goal Term, p
 	ob := &Obligation{Name: name, Kind: kind, Detail: detail, Func: e.name, Pos: e.p.Pos(pos), Props: props, Src: src, enc: e}
 	if e.skipObligations {
 		switch kind {
-		case "frame", "effect", "lock", "guard", "post", "typeinv", "typeinv-new", "cand", "monotone", "writers", "at", "callers", "flows", "opaque", "contract-applies":
+		case "frame", "effect", "lock", "guard", "post", "typeinv", "typeinv-new", "cand", "monotone", "writers", "at", "sink", "callers", "flows", "opaque", "contract-applies":
 		default:
 			e.assume(goal)
 		}
@@ -642,7 +643,7 @@ func (e *Enc) obligeNamed(name, kind, detail string, pos token.Pos, goal Term, p
 	// preconditions, invariants); pure proof goals (frames, effects, locks, postconditions) are not assumed,
 	// so that one failing goal does not make the goals after it vacuous.
 	switch kind {
-	case "frame", "effect", "lock", "guard", "post", "typeinv", "typeinv-new", "cand", "monotone", "writers", "at", "callers", "flows", "opaque", "contract-applies", "pure", "variant-cand", "preserved":
+	case "frame", "effect", "lock", "guard", "post", "typeinv", "typeinv-new", "cand", "monotone", "writers", "at", "sink", "callers", "flows", "opaque", "contract-applies", "pure", "variant-cand", "preserved":
 	default:
 		e.assume(goal)
 	}
